@@ -583,6 +583,17 @@ pub fn typed_tag_as(rec: &mut Rec, p: &str, tag: &Generic, kind: u32, opts: &Mbi
                             Some(None) => {
                                 rec.t.push(format!("{p}.e.end"), Val::None);
                                 u!(rec, format!("{p}.e"), "len_end", it.len());
+                                // the same map through nth(): first, middle, one past
+                                // the last, two past the last
+                                let mut ks = vec![0, j / 2, j, j + 1];
+                                ks.dedup();
+                                for k in ks {
+                                    if let Some(mut it2) = catch(|| t.memory_areas()) {
+                                        let v = catch(|| it2.nth(k).map(|d| rec.ext(d)));
+                                        rec.t.push(format!("{p}.e.nth{k}"), match v { None => Val::Panic, Some(None) => Val::None, Some(Some(v)) => v });
+                                        u!(rec, format!("{p}.e.nth{k}"), "len", it2.len());
+                                    }
+                                }
                                 break;
                             }
                             Some(Some(desc)) => {
